@@ -9,6 +9,8 @@ class Ctx:
         self.config = config
         self.prog, self.info = runner.load_program(config)
         self.pf = flow.ProgFlow(self.prog)
+        from .. import rules as _rules
+        _rules.set_progflow(self.pf)
         self._ef = None
 
     @property
